@@ -227,3 +227,112 @@ _add(PropertySpec(
     assumptions=[A_REAL, 'scale > 0 and span >= 1e-6 as in the property\'s quantifier'],
     not_decided=['step scaling for all step lists (bounded only)', 'floating-point error of undo(do(x)) (exact only in the reals)'],
 ))
+
+
+_add(PropertySpec(
+    'C04', 'other',
+    functions=['ampycloud.utils.utils.calc_base_height', 'ampycloud.wmo.height2code', 'ampycloud.data.CeiloChunk.metarize'],
+    lemmas=['cnt_frame', 'prop.C18.h.floor', 'prop.C18.h.tight', 'prop.C18.h.mono', 'prop.C18.h.three_digits', 'fp.floor100', 'fp.floor1000', 'fmt03.digits', 'fmt03.value'],
+    bounded=_bounded('c04'),
+    explanation=('PROVED (P): calc_base_height (real AST; Python slice arithmetic incl. vals[-0:]) takes the configured percentile over '
+                 'exactly the look-back tail of the values handed in, hence a value between their minimum and maximum; height2code is the '
+                 'floor to 100 ft / 1000 ft (never upward, also for the computed quotient in the standard model of rounding: fp.* lemmas), '
+                 'monotone, three digits; metarize (real AST) sorts the table by ascending base and writes code = abbr ++ floor code.  '
+                 'ASSUMED + BOUNDED (B): that the values handed to calc_base_height are the time-ordered member hits after the ceilometer '
+                 'exclusion (pandas sort / mask semantics in _calculate_base_height_for_selection and _calculate_sligrolay_base_height, not yet '
+                 'under contract), min / max / mean / std (pandas reductions) and a finite non-negative fluffiness (LOWESS): recomputed '
+                 'natively on a scene grammar x percentile x look-back x exclusion subsets.'),
+    assumptions=[A_REAL, A_FP, 'np.percentile / slicing contracts (pyvc/lib.py)'],
+    not_decided=['selection of the member hits (pandas semantics; bounded only)', 'fluffiness finite (LOWESS numerics; bounded only)'],
+))
+
+_add(PropertySpec(
+    'C05', 'other',
+    functions=['ampycloud.data.AbstractChunk._cleanup_pdf'],
+    lemmas=['cnt_union', 'prop.C05.layer_ids_injective'],
+    extras=[_fs.c05], bounded=_bounded('c05'),
+    explanation=('PROVED (F): after construction no method writes any column of the private hit table other than slice_id / group_id / '
+                 'layer_id (each stage only its own), nor replaces the table: no hit is created, lost or altered by the stages.  PROVED (P): '
+                 'at construction exactly the hits above MSA+buffer are changed / removed (_cleanup_pdf, see C07).  PROVED (lemma): with the '
+                 'id scheme offset+10*row+component (offset above every group id, component in 0..2) equal layer ids imply the same group '
+                 'and component -- each layer lies inside exactly one group.  BOUNDED (B): that every valid hit gets an id >= 0 and every '
+                 'non-detection -1 at each stage, that the tables list exactly the ids present, n_<which> and the k-components-k-layers '
+                 'clause depend on scikit-learn labels and pandas fills; checked natively on the scene grammar.'),
+    assumptions=[A_FRAME, 'clustering / mixture model return one label per sample, mixture labels in 0..2 (library contracts)',
+                 'the id formula in find_layers is the one the lemma is about (obligation pin.layer_id_formula)'],
+    not_decided=['coverage of all valid hits by cluster labels (library behaviour; bounded only)'],
+))
+
+_add(PropertySpec(
+    'C06', 'other',
+    functions=['ampycloud.data.CeiloChunk._get_min_sep_for_height', 'ampycloud.utils.utils.calc_base_height'],
+    bounded=_bounded('c06'),
+    explanation=('PROVED (P): _get_min_sep_for_height returns the MIN_SEP_VALS entry of the height bin (left insertion point in the ascending '
+                 'limits; lengths mismatch => AmpycloudError; index always in range); calc_base_height is the percentile of the look-back '
+                 'tail of what it is given (so decision-time and report-time bases agree whenever both hand in the same time-ordered '
+                 'selection).  NOT UNDER CONTRACT: the merge loop of _merge_close_groups and the re-merge pass of ncomp_from_gmm '
+                 '(pandas diff / apply / drop, scikit-learn): the separation of the bases finally reported is checked natively on scenes '
+                 'built to straddle the separation bins, with rows ascending / descending / shuffled, look-back and exclusion (B).'),
+    assumptions=[A_REAL, 'MIN_SEP_LIMS ascending (documented meaning)'],
+    not_decided=['_merge_close_groups loop invariant and ncomp_from_gmm re-merge pass (bounded only)'],
+))
+
+_add(PropertySpec(
+    'C08', 'other',
+    functions=['ampycloud.utils.utils.calc_base_height', 'ampycloud.data.CeiloChunk._get_min_sep_for_height',
+               'ampycloud.data.CeiloChunk._calculate_cloud_amount', 'ampycloud.wmo.perc2okta', 'ampycloud.wmo.okta2code', 'ampycloud.wmo.height2code',
+               'ampycloud.data.AbstractChunk._cleanup_pdf', 'ampycloud.data.CeiloChunk.metar_msg', 'ampycloud.icao.significant_cloud'],
+    lemmas=['cnt_frame', 'cnt_mono', 'cnt_subset', 'cnt_union', 'sig_le3', 'abbr_len', 'abbr_re', 'concat_re', 'code_grammar', 'fmt03.digits', 'prop.C18.h.three_digits'],
+    extras=[_fs.c08], bounded=_bounded('c08'),
+    explanation=('PROVED (syntactic): every raise statement in the package raises AmpycloudError and nothing is caught.  PROVED (P): in the '
+                 'functions under full-mode contract every partial operation is safe and only the declared AmpycloudError can escape '
+                 '(obligations safe.* and exc.unexpected.*): percentile of a non-empty tail, MIN_SEP_VALS index in range, division by the '
+                 'number of measurements (>= 1), perc2okta argument in [0,100], okta2code applied to a Python int in 0..8 (never None + str), '
+                 'row indices inside the tables, message assembly.  NOT DECIDED: totality of scikit-learn / statsmodels / pandas internals '
+                 'and the stages not yet under full-mode contract (find_slices / find_groups / find_layers bodies): valid scenes x valid '
+                 'parameter sets are run natively (B).'),
+    assumptions=[A_REAL, 'library preconditions as stated in pyvc/lib.py'],
+    not_decided=['third-party code raises nothing under its stated preconditions', 'call-site preconditions inside find_slices / find_groups / find_layers'],
+))
+
+_add(PropertySpec(
+    'C10', 'other',
+    functions=['ampycloud.data.AbstractChunk._cleanup_pdf'],
+    lemmas=['cnt_union'],
+    extras=[_fs.c10], bounded=_bounded('c10'),
+    explanation=('PROVED (P): _cleanup_pdf is executed with the *true* label-based meaning of .loc[labels]= and drop(labels) over frames with '
+                 'arbitrary (possibly repeated) index labels; because the private copy gets a fresh RangeIndex first, the per-row '
+                 'postcondition holds for every labelling -- without that reset the obligation rows.kept_at_or_below_limit is refuted by a '
+                 'two-row frame sharing a label.  PROVED (F): the hit table is never indexed by position in the chunk code, and its index is '
+                 'normalised before the first label-based selection.  BOUNDED (B): equality of tables and message under 10 relabellings / '
+                 'column layouts / dtype variants on the scene grammar (the later label-based writes in the stages are not under a '
+                 'full-mode contract).'),
+    assumptions=[A_FRAME, 'pandas astype is value-preserving for exactly representable values'],
+    not_decided=['label-based writes inside find_slices / find_groups / find_layers (bounded only; they operate on the RangeIndex established at construction)'],
+))
+
+_add(PropertySpec(
+    'C14', 'other',
+    extras=[], bounded=_bounded('c14'),
+    explanation='placeholder: replaced below once the typestate obligations are registered',
+))
+
+_add(PropertySpec(
+    'C15', 'other',
+    extras=[], bounded=_bounded('c15'),
+    explanation='placeholder: replaced below once the screening contract is registered',
+))
+
+_add(PropertySpec(
+    'C16', 'other',
+    extras=[_fs.c16], bounded=_bounded('c16'),
+    explanation=('PROVED (F, syntactic flow): in the processing path every use of ceilometer names (the ceilo column, CeiloChunk.ceilos, the '
+                 'exclusion list and loop variables ranging over them) is an equality / membership test, np.unique for iteration, isin, an '
+                 'equality-join key (merge / duplicated), a column-name list or message text; names never reach sort keys, ordering '
+                 'comparisons, string operations or the clustering input.  Since per-ceilometer counts are exact integers that are summed, '
+                 'their iteration order is irrelevant.  BOUNDED (B): three bijective renamings per scene (order-reversing, names that sort '
+                 'differently as strings, random), exclusion list mapped, look-back varied; tables, per-hit assignments and message compared '
+                 'bit for bit.'),
+    assumptions=[A_FRAME, A_DET],
+    not_decided=['a semantic (rather than syntactic) proof that every postcondition is invariant under renaming'],
+))
